@@ -280,6 +280,10 @@ func runField(r *ev.Report, fc fieldCase, a rune, shape string) {
 		v = M{hostile: 1.0, "type": "Link"}
 	case "entity-in-plain-field":
 		v = fmt.Sprintf("a&#%d;%sb", a, telltale)
+	case "raw-in-url-query":
+		v = "https://example.com/x?sig=" + string(a) + telltale + "&y=1"
+	case "raw-in-opaque-url":
+		v = "mailto:" + string(a) + telltale + "user@example.com"
 	case "percent-encoded-in-url-path":
 		enc := ""
 		for _, b := range []byte(string(a)) {
@@ -501,7 +505,7 @@ func runFrames(r *ev.Report, a rune, n int) {
 func main() {
 	r := ev.New("C01", "exploration",
 		"atoms: every C0/DEL/C1 code point except newline (quick: NUL,BEL,BS,TAB,ESC,DEL,CSI,OSC), each followed by the tell-tale '[7m'; 32 markup carriers (HTML text/attributes/pre/code/unknown tag, Markdown text/destination/title/code/autolink/alt/raw HTML, gemtext, plain text) x 7 encodings "+
-			"(raw, decimal/hex/zero-padded/semicolon-less references, double-encoded, named) through Markup.Render, Post.String/Preview, Actor.String/Preview; every string field of actors, posts, activities and their nested links (with a name and without one, so that the address itself is displayed), authors and collections as string, list, object, hostile key, entity-in-plain-field and percent-encoded inside a URL (host; path, query and fragment); "+
+			"(raw, decimal/hex/zero-padded/semicolon-less references, double-encoded, named) through Markup.Render, Post.String/Preview, Actor.String/Preview; every string field of actors, posts, activities and their nested links (with a name and without one, so that the address itself is displayed), authors and collections as string, list, object, hostile key, entity-in-plain-field, percent-encoded inside a URL (host; path, query and fragment) and raw inside a URL's query or opaque part; "+
 			"13 positions in raw HTTP responses (status line, Content-Type, Location, body, header name) x start/middle/end through pub.New's failure item and through 10 kinds of document that refer to the failing URL (actor outbox, activity actor/object, post author/audience/parent/replies, collection first page), with every related item inspected; UI frames (normal, selection, opening, problem, command footers) for worlds carrying the atoms; widths {1,2,7,80,81}; "+
 			"distinct_nontrivial = (carrier, atom, encoding) triples")
 	palette = oracle.Palette{Colors: []string{config.Parsed.Style.Colors.Primary, config.Parsed.Style.Colors.Error, config.Parsed.Style.Colors.Highlight, config.Parsed.Style.Colors.Code}}
@@ -531,7 +535,7 @@ func main() {
 		r.Distinct(fmt.Sprint(j.ca.Name, j.a, j.e.Name))
 	})
 	// object fields (sequential: pub.New spawns goroutines and uses the shared peer)
-	shapes := []string{"string", "list", "object-with-hostile-type", "hostile-key", "entity-in-plain-field", "percent-encoded-in-url", "percent-encoded-in-url-path"}
+	shapes := []string{"string", "list", "object-with-hostile-type", "hostile-key", "entity-in-plain-field", "percent-encoded-in-url", "percent-encoded-in-url-path", "raw-in-url-query", "raw-in-opaque-url"}
 	for _, fc := range fieldCases() {
 		for _, a := range as {
 			for _, sh := range shapes {
